@@ -286,8 +286,12 @@ class TFLiteSerialiser:
     def serialise_operator(self, op):
         builder = self.builder
 
+        op_inputs = list(op.inputs)
+        if op.attrs.get("bias_input_added", False) and op_inputs and op_inputs[-1] is None:
+            # The reader appended an absent bias input: write the operator with its original inputs
+            op_inputs = op_inputs[:-1]
         inputs_offset = self.write_int_vector(
-            [self.tensor_map_sg[tens] if tens in self.tensor_map_sg else -1 for tens in op.inputs]
+            [self.tensor_map_sg[tens] if tens in self.tensor_map_sg else -1 for tens in op_inputs]
         )
         outputs_offset = self.write_int_vector(
             [self.tensor_map_sg[tens] for tens in op.outputs if tens in self.tensor_map_sg]
